@@ -4,9 +4,9 @@ CONSTANTS
   Kinds = {"slp", "hyp", "idt", "pot", "fmm"}
   RegVals = {1, 4}
   SingVals = {3, 4}
-  MassCacheKeyed = FALSE
+  MassCacheKeyed = TRUE
   MassHonoursExplicit = TRUE
-  FmmCacheKeyed = TRUE
+  FmmCacheKeyed = FALSE
   MaxDepth = 7
   EmitJson = FALSE
 INVARIANT TypeOK
